@@ -504,6 +504,25 @@ class Domain(object):
             return self._assume_none(n[1], state, want_none)
         if isinstance(n, tuple) and n and n[0] == 'not':
             return self._assume_truth(n[1], state, not truthy)
+        if isinstance(n, tuple) and len(n) == 3 and n[0] == 'boolop' and isinstance(n[2], tuple):
+            # a conjunction that holds / a disjunction that fails decides every operand (a test kept in a named boolean refines the
+            # same facts as the test written in place)
+            if (n[1] == 'and' and truthy) or (n[1] == 'or' and not truthy):
+                st = self._assume_truth(n, state, truthy)
+                for part in n[2]:
+                    if st is None:
+                        return None
+                    if isinstance(part, tuple) and part and part[0] in ('isnone', 'notnone'):
+                        st = self._assume_none(part[1], st, truthy if part[0] == 'isnone' else not truthy)
+                    elif isinstance(part, tuple) and part and part[0] == 'not':
+                        st = self._assume_truth(part[1], st, not truthy)
+                    elif isinstance(part, tuple):
+                        st = self._assume_truth(part, st, truthy)
+                return st
+            if len(n[2]) >= 1 and ((n[1] == 'and' and not truthy) or (n[1] == 'or' and truthy)):
+                # the first operand was evaluated for sure; with all other operands already decided the other way it is the one
+                st = self._assume_truth(n, state, truthy)
+                return st
         return self._assume_truth(n, state, truthy)
 
     def track_fact(self, name):
